@@ -1,6 +1,6 @@
 (** C13 — pre-checks: skipped enables dependents like success, blocked enables nothing. *)
 From Coq Require Import List ZArith Bool Arith.
-From FF Require Import Sx TaskTree TaskTreeFacts StoreModel PreCheck PreCheckFacts.
+From FF Require Import Sx TaskTree TaskTreeFacts StoreModel PreCheck PreCheckFacts Engine EngineFacts EngineSettle EngineRefute.
 Import ListNotations.
 
 Theorem C13_skipped_like_success : forall t u,
@@ -44,3 +44,66 @@ Theorem C13_outcomes_range : forall st checks vars share o,
   In o (pre_outcomes st checks vars share) -> o = 10%Z \/ o = 8%Z \/ o = (-1)%Z.
 Proof. exact outcomes_are_skip_block_or_error. Qed.
 Print Assumptions C13_outcomes_range.
+
+(** --- engine level (Engine, see C01.v for the scope).  A push whose skip (block) check fires records the
+    verdict and runs nothing; a finished task - skipped included - keeps its status, and enables its
+    dependents exactly as success does ([done] is what [parents_done] asks for, C01); a blocked task has no
+    run and has not started its main action until a continue command re-arms it; a continued task cannot be
+    blocked by the push while it can still be skipped.  (Which check holds is the environment's choice in
+    the model; that the verdict written is one DoPreCheck allows is the theorem about [pre_outcomes] above
+    and the monitor clause (13,5) on every journal.) --- *)
+
+Theorem C13_engine_verdict_runs_nothing : forall tasks deps cq nn ls s t sn s',
+  run tasks deps true cq nn boot ls = Some s ->
+  step tasks deps true cq nn s (PushSkip t sn) = Some s' \/ step tasks deps true cq nn s (PushBlock t sn) = Some s' ->
+  (store s' t = SSkipped \/ store s' t = SBlocked) /\ runs s' t = RNone /\ started s' t = false /\
+  (forall x, runs s' x = runs s x) /\ (forall x, started s' x = started s x).
+Proof.
+  intros tasks deps cq nn ls s t sn s' Hr Hs.
+  exact (push_verdict_runs_nothing tasks deps cq nn s t sn s' (inv_reach tasks deps cq nn ls boot s (inv_boot deps) Hr) Hs).
+Qed.
+Print Assumptions C13_engine_verdict_runs_nothing.
+
+Theorem C13_engine_blocked_waits : forall tasks deps cq nn ls s t,
+  run tasks deps true cq nn boot ls = Some s -> store s t = SBlocked ->
+  started s t = false /\ ~ writing (runs s t).
+Proof.
+  intros tasks deps cq nn ls s t Hr Hst.
+  pose proof (inv_reach tasks deps cq nn ls boot s (inv_boot deps) Hr) as HI.
+  split; [eapply blocked_not_started; eassumption|eapply blocked_has_no_run; eassumption].
+Qed.
+Print Assumptions C13_engine_blocked_waits.
+
+Theorem C13_engine_skipped_is_final : forall tasks deps cq nn ls s l s' t,
+  run tasks deps true cq nn boot ls = Some s -> step tasks deps true cq nn s l = Some s' ->
+  store s t = SSkipped -> store s' t = SSkipped.
+Proof.
+  intros tasks deps cq nn ls s l s' t Hr Hs Hst.
+  rewrite (done_final tasks deps cq nn s l s' t (inv_reach tasks deps cq nn ls boot s (inv_boot deps) Hr) Hs); [exact Hst|rewrite Hst; reflexivity].
+Qed.
+Print Assumptions C13_engine_skipped_is_final.
+
+Theorem C13_engine_continue_bypasses_block_only : forall tasks deps v cq nn s t,
+  step tasks deps v cq nn s (PushBlock t SContinue) = None.
+Proof. intros. cbn. destruct (remove1 (t, SContinue) (pushq s)); reflexivity. Qed.
+Print Assumptions C13_engine_continue_bypasses_block_only.
+
+(** under the hypotheses of the settle theorem: a task recorded skipped or blocked holds no token at all *)
+Theorem C13_engine_verdict_task_idle : forall tasks deps validate (rank : Z -> nat),
+  NoDup tasks ->
+  (forall t d, In d (deps t) -> (rank d < rank t)%nat) ->
+  (forall t d, In t tasks -> In d (deps t) -> In d tasks) ->
+  forall ls s t, run tasks deps validate true true boot ls = Some s ->
+  store s t = SSkipped \/ store s t = SBlocked -> runs s t = RNone /\ ~ inpend s t.
+Proof.
+  intros tasks deps validate rank Hnd Hrank Hclosed ls s t Hr Hst.
+  apply (verdict_task_has_no_run tasks deps s t); [|exact Hst].
+  exact (invq_reach tasks deps validate rank Hnd Hrank Hclosed ls boot s (invq_boot tasks deps) Hr).
+Qed.
+Print Assumptions C13_engine_verdict_task_idle.
+
+(** the hypotheses are met: a history in which a task is blocked, continued and run, and its dependent skipped *)
+Example C13_engine_history :
+  obs12 (run [1; 2]%Z deps12 true true true boot w_block_continue_1) = Some (true, IBlocked, SBlocked, SInit, false, false) /\
+  obs12 (run [1; 2]%Z deps12 true true true boot (w_block_continue_1 ++ w_block_continue_2)) = Some (true, ISuccess, SSuccess, SSkipped, true, false).
+Proof. exact settle_with_prechecks_met. Qed.
